@@ -1301,7 +1301,7 @@ def call_python(it, f, args, kwargs, node):
     import re
     import enum
     if f is re.compile:
-        return RegexObj(args[0])
+        return RegexObj(args[0], args[1] if len(args) > 1 else kwargs.get("flags", 0))
     has_sym = any(is_t(x) or isinstance(x, (SymList, SymMap, FStr, SymSet)) for x in list(args) + list(kwargs.values()))
     if isinstance(f, type) and issubclass(f, enum.Enum):
         if has_sym:
